@@ -49,6 +49,7 @@ const (
 	kKw                   // :n
 	kQSym                 // 'n
 	kQList                // '(n :n)
+	kQQ                   // (quasiquote ('n (n :n) [n])): a template OUTSIDE any macro that mentions n as data only
 	kRef                  // n
 	kQRef                 // pkg:n           (pkg index in p)
 	kList                 // (list k0 k1)
@@ -199,7 +200,7 @@ const (
 var litTerm = &term{k: kLit}
 
 // macro templates (global defmacro and macrolet): p is the macro parameter, g a free name
-const nTemplates = 4
+const nTemplates = 6
 
 // wrappers of a nested top-level set: 1 if/both branches (then runs), 2 if/both (else runs), 3 if/one branch,
 // 4 progn, 5 let, 6 cond, 7 dotimes, 8 handler-bind
@@ -215,8 +216,22 @@ func templateText(tmpl int8, p string, free string) string {
 		return "(" + free + " (unquote " + p + "))"
 	case 3: // template-local binder
 		return "(let ([t (unquote " + p + ")]) (list t t))"
+	case 4: // the parameter's NAME as data: quoted symbol, quoted list, bracket list
+		return "(list (unquote " + p + ") '" + p + " '(" + p + " 0) [" + p + "])"
+	case 5: // a local of the macro body (always renameable), used and mentioned as data
+		return "(list (unquote tl) 'tl '(tl 0) [tl])"
 	}
 	return "()"
+}
+
+// macroBody is the body of a macro with template tmpl: the quasiquote itself, for template 5 inside a let that
+// binds the macro-body local tl.
+func macroBody(tmpl int8, p string, free string) string {
+	q := "(quasiquote " + templateText(tmpl, p, free) + ")"
+	if tmpl == 5 {
+		return "(let ([tl " + p + "]) " + q + ")"
+	}
+	return q
 }
 
 func templateHasFree(tmpl int8) bool { return tmpl == 1 || tmpl == 2 }
@@ -255,6 +270,9 @@ func (g *gen) genArg(ctx int, w int, sc scope) []*term {
 				out = append(out, &term{k: kQSym, n: int8(n)})
 			}
 			out = append(out, &term{k: kQList, n: 0})
+			for n := range g.cfg.Names {
+				out = append(out, &term{k: kQQ, n: int8(n)})
+			}
 		}
 	}
 	out = append(out, g.list(ctx, ntExpr, w, sc)...)
@@ -931,6 +949,8 @@ func (r *renderer) term(t *term) {
 		w("'" + r.name(t.n))
 	case kQList:
 		w("'(" + r.name(t.n) + " :" + r.name(t.n) + ")")
+	case kQQ:
+		w("(quasiquote ('" + r.name(t.n) + " (" + r.name(t.n) + " :" + r.name(t.n) + ") [" + r.name(t.n) + "]))")
 	case kRef:
 		w(r.name(t.n))
 	case kQRef:
@@ -1024,7 +1044,7 @@ func (r *renderer) term(t *term) {
 		if t.q >= 0 {
 			free = r.name(t.q)
 		}
-		w("(macrolet ([lm (" + r.name(t.p) + ") (quasiquote " + templateText(t.n, r.name(t.p), free) + ")]) ")
+		w("(macrolet ([lm (" + r.name(t.p) + ") " + macroBody(t.n, r.name(t.p), free) + "]) ")
 		r.term(t.kids[0])
 		w(")")
 	case kFunArg:
@@ -1065,8 +1085,8 @@ func termHasKey(t *term) bool {
 	return false
 }
 
-var allTags = []string{"&key", "&optional", "&rest", "callkey", "defmacro", "defmacro-free", "defmacro-free-eq-param", "defmacro-qfree", "dotimes", "export", "export-in-other-file", "export-list", "export-string",
-	"files", "funarg", "gset", "let-dup", "let-value-closure", "macrolet", "macrolet-free", "nested-set", "pkg", "prefix", "qref", "qref-in-brackets", "redefine", "use", "use-with-local-export"}
+var allTags = []string{"&key", "&optional", "&rest", "callkey", "defmacro", "defmacro-free", "defmacro-free-eq-param", "defmacro-name-as-data", "defmacro-qfree", "dotimes", "export", "export-in-other-file", "export-list", "export-string",
+	"files", "funarg", "gset", "let-dup", "let-value-closure", "macrolet", "macrolet-free", "nested-set", "pkg", "prefix", "qref", "qref-in-brackets", "quasiquote-data", "redefine", "use", "use-with-local-export"}
 
 func termTags(t *term, tags map[string]bool, inBrackets bool) {
 	if t == nil {
@@ -1099,6 +1119,8 @@ func termTags(t *term, tags map[string]bool, inBrackets bool) {
 		if closureSees(t.kids[0], both, false) || closureSees(t.kids[1], second, false) {
 			tags["let-value-closure"] = true
 		}
+	case kQQ:
+		tags["quasiquote-data"] = true
 	case kMacrolet:
 		if t.q >= 0 {
 			tags["macrolet-free"] = true
@@ -1242,7 +1264,7 @@ func (g *gen) render(items []item) program {
 					free = pkgNames[it.fpkg] + ":" + free
 				}
 			}
-			r.b.WriteString("(defmacro m" + strconv.Itoa(int(it.n)) + " (" + r.name(it.p) + ") (quasiquote " + templateText(it.tmpl, r.name(it.p), free) + "))")
+			r.b.WriteString("(defmacro m" + strconv.Itoa(int(it.n)) + " (" + r.name(it.p) + ") " + macroBody(it.tmpl, r.name(it.p), free) + ")")
 		case itSet:
 			v := r.name(int8(len(r.names) - 1)) // binder of the let / dotimes wrappers
 			set := func(hole bool) {
@@ -1358,6 +1380,8 @@ func (g *gen) render(items []item) program {
 				tags["defmacro-free-eq-param"] = true
 			} else if it.free >= 0 {
 				tags["defmacro-free"] = true
+			} else if it.tmpl >= 4 {
+				tags["defmacro-name-as-data"] = true
 			} else {
 				tags["defmacro"] = true
 			}
